@@ -205,10 +205,14 @@ def _install_cache():
                 if maxd:
                     time.sleep(rng.random() * maxd)
                 emit("cache_open_w", path=os.path.basename(p))
+                existed = os.path.exists(p)
                 f = real_open(file, mode, *a, **kw)
                 # delay between truncation and dump
                 if maxd:
                     time.sleep(rng.random() * maxd)
+                # a longer, fixed pre-emption right after a file of the cache folder was CREATED (it exists and is still empty)
+                if not existed and _CFG.get("cache_create_delay"):
+                    time.sleep(_CFG["cache_create_delay"])
                 return f
             emit("cache_open_r", path=os.path.basename(p))
         return real_open(file, mode, *a, **kw)
